@@ -33,9 +33,12 @@ try:
     if os.path.exists(demo) and demo_pkg:
         dst = os.path.join(wt, demo_pkg, "zz_seed_demo_test.go")
         shutil.copy(demo, dst)
-        rc1, o1 = run(["go", "test", "-vet=off", "-count=1", "-run", "Demo|Seed|C[0-9][0-9]", "./" + demo_pkg], cwd=wt, timeout=600)
+        import re as _re
+        names = _re.findall(r"^func (Test\w+)\(", open(demo).read(), _re.M)
+        rx = "^(" + "|".join(names) + ")$" if names else "."
+        rc1, o1 = run(["go", "test", "-vet=off", "-count=1", "-run", rx, "./" + demo_pkg], cwd=wt, timeout=600)
         run(["git", "apply", "-R", patch], cwd=wt)
-        rc2, o2 = run(["go", "test", "-vet=off", "-count=1", "-run", "Demo|Seed|C[0-9][0-9]", "./" + demo_pkg], cwd=wt, timeout=600)
+        rc2, o2 = run(["go", "test", "-vet=off", "-count=1", "-run", rx, "./" + demo_pkg], cwd=wt, timeout=600)
         meta["demo_fails_with_change"] = rc1 != 0
         meta["demo_passes_without_change"] = rc2 == 0
         meta["ran"].append("demo (go test ./%s) with the change: rc=%d; without: rc=%d" % (demo_pkg, rc1, rc2))
